@@ -17,8 +17,11 @@ loaded certificate only when `err == nil`), and the block is followed by "defaul
 certificate if one was selected, else the error" — the order `afterMiss` follows -/
 theorem C03_tie_load_block_falls_through :
     CM.Gen.C03.loadBlockUnconditionalReturns = 0 ∧
-    CM.Gen.C03.loadBlockReturns.length = 2 ∧
-    CM.Gen.C03.loadBlockReturns.head? = some "err == nil => loadedCert,nil" ∧
+    -- (after fix D3b a loaded-but-expired certificate whose maintenance failed is returned
+    -- together with its error; the only return with a nil error is under `err == nil`)
+    CM.Gen.C03.loadBlockReturns =
+      ["err == nil => loadedCert,nil", "!loadedCert.Empty() => loadedCert,err",
+       "cfg.OnDemand != nil => cfg.obtainOnDemandCertificate(ctx, hello)"] ∧
     CM.Gen.C03.afterLoadBlock = ["if defaulted return cert,nil", "return error"] := by decide
 
 /-- `getCertificateFromCache` tries, in this order and nesting: (no SNI) the local IP of a
